@@ -5,18 +5,20 @@
    writer is a function of problem and assignment (C05). *)
 From Coq Require Import List ZArith Bool Arith String.
 Require Import Json CdeThms CdeSpec CdeInvariance CdeRefine.
+Open Scope string_scope.
 Import ListNotations.
 
 (* course_data tid c / reg_data part tid r: exactly what the selected track's view of a course / registration reads: nr, shortname,
    sizes, fields and the segment entry of track tid; the status entry of the track's part, the two persona names and the tracks entry
    of track tid.  Two exports that have the same event structure, the same course and registration ids and agree on these data for
-   every course and registration -- whatever else differs: other tracks' choices, assignments, instructors and segments, other parts'
+   every course and registration AT THE SELECTED PART AND TRACK -- whatever else differs: other tracks' choices, assignments, instructors and segments, other parts'
    statuses, lodgement and remaining persona data -- give the same problem (or the same refusal). *)
 Theorem C13 : forall data data' track ign_c ign_a ff of,
   get "kind" data = get "kind" data' -> get "EVENT_SCHEMA_VERSION" data = get "EVENT_SCHEMA_VERSION" data' ->
   get "CDEDB_EXPORT_EVENT_VERSION" data = get "CDEDB_EXPORT_EVENT_VERSION" data' ->
   get "timestamp" data = get "timestamp" data' -> get "event" data = get "event" data' -> get "id" data = get "id" data' ->
-  (forall part_id track_id,
+  (* agreement is demanded ONLY at the part and track the reader selects (CdeInvariance.selected = find_track on the event structure) *)
+  (forall part_id track_id, selected data' track = Some (part_id, track_id) ->
      match items_of "courses" data, items_of "courses" data' with
      | Some l, Some l' => Forall2 (fun x y : string * json => fst x = fst y /\ course_data track_id (snd x) = course_data track_id (snd y)) l l'
      | None, None => True | _, _ => False end /\
@@ -24,7 +26,29 @@ Theorem C13 : forall data data' track ign_c ign_a ff of,
      | Some l, Some l' => Forall2 (fun x y : string * json => fst x = fst y /\ reg_data part_id track_id (snd x) = reg_data part_id track_id (snd y)) l l'
      | None, None => True | _, _ => False end) ->
   read_fields data track ign_c ign_a ff of = read_fields data' track ign_c ign_a ff of.
-Proof. intros. rewrite !read_fields_refines_spec. apply spec_read_depends; assumption. Qed.
+Proof. intros. rewrite !read_fields_refines_spec. apply spec_read_depends_selected; assumption. Qed.
+
+(* non-vacuity: the hypotheses hold of a twin pair that differs in ANOTHER track's choices / assignment and in ANOTHER part's status (an
+   earlier version of the statement asked for agreement at every pair of ids, which exactly these edits violate -- found by a review of
+   the theorem statements) *)
+Definition c13_export (other_choices : list json) (other_course : json) (other_status : Z) : json :=
+  JObj [("kind", JStr "partial"); ("EVENT_SCHEMA_VERSION", JArr [JInt 16; JInt 0]); ("id", JInt 1); ("timestamp", JStr "2023-04-23T12:02:09+00:00");
+        ("event", JObj [("parts", JObj [("1", JObj [("tracks", JObj [("1", JObj [("shortname", JStr "a"); ("num_choices", JInt 2)])])]);
+                                        ("2", JObj [("tracks", JObj [("2", JObj [("shortname", JStr "b"); ("num_choices", JInt 2)])])])])]);
+        ("courses", JObj [("10", JObj [("nr", JStr "1"); ("shortname", JStr "K"); ("segments", JObj [("1", JBool true); ("2", JBool true)]); ("fields", JObj [])])]);
+        ("registrations", JObj [("5", JObj [("parts", JObj [("1", JObj [("status", JInt 2)]); ("2", JObj [("status", JInt other_status)])]);
+                                            ("tracks", JObj [("1", JObj [("course_id", JNull); ("course_instructor", JNull); ("choices", JArr [JInt 10])]);
+                                                             ("2", JObj [("course_id", other_course); ("course_instructor", JNull); ("choices", JArr other_choices)])]);
+                                            ("persona", JObj [("given_names", JStr "G"); ("family_name", JStr "F")])])])].
+Example C13_applies :
+  c13_export [JInt 10] (JInt 10) 2 <> c13_export [] JNull 4 /\
+  read_fields (c13_export [JInt 10] (JInt 10) 2) (Some 1%Z) false true None None = read_fields (c13_export [] JNull 4) (Some 1%Z) false true None None /\
+  exists r, read_fields (c13_export [] JNull 4) (Some 1%Z) false true None None = ROk r.
+Proof.
+  split; [discriminate|]. split.
+  - apply C13; try reflexivity. intros p t Hs. vm_compute in Hs. inversion Hs; subst p t. split; vm_compute; repeat constructor.
+  - vm_compute. eexists. reflexivity.
+Qed.
 
 (* without --ignore-assigned the existing assignments (course_id of the selected track) do not enter the problem *)
 Theorem C13_assigned_irrelevant : forall csorted rviews,
